@@ -563,3 +563,464 @@ pub fn shrink(ctx: &Ctx) -> Report {
     }
     rep
 }
+
+// ---------------------------------------------------------------------------------------------
+// c16-e2e: the real compiler + PropertyTest::run
+// ---------------------------------------------------------------------------------------------
+
+/// the primitive fuzzers (as in the repo's own `test_framework.rs` tests; no stdlib) plus a few
+/// combinators used by the cases below
+const PRELUDE: &str = r#"
+use aiken/builtin
+
+pub fn int() -> Fuzzer<Int> {
+  fn(prng: PRNG) -> Option<(PRNG, Int)> {
+    when prng is {
+      Seeded { seed, choices } -> {
+         let choice =
+           seed
+             |> builtin.index_bytearray(0)
+
+         Some((
+           Seeded {
+             seed: builtin.blake2b_256(seed),
+             choices: builtin.cons_bytearray(choice, choices)
+           },
+           choice
+         ))
+      }
+
+      Replayed { cursor, choices } -> {
+        if cursor >= 1 {
+            let cursor = cursor - 1
+            Some((
+              Replayed { choices, cursor },
+              builtin.index_bytearray(choices, cursor)
+            ))
+        } else {
+            None
+        }
+      }
+    }
+  }
+}
+
+pub fn constant(a: a) -> Fuzzer<a> {
+  fn(s0) { Some((s0, a)) }
+}
+
+pub fn and_then(fuzz_a: Fuzzer<a>, f: fn(a) -> Fuzzer<b>) -> Fuzzer<b> {
+  fn(s0) {
+    when fuzz_a(s0) is {
+      Some((s1, a)) -> f(a)(s1)
+      None -> None
+    }
+  }
+}
+
+pub fn map(fuzz_a: Fuzzer<a>, f: fn(a) -> b) -> Fuzzer<b> {
+  fn(s0) {
+    when fuzz_a(s0) is {
+      Some((s1, a)) -> Some((s1, f(a)))
+      None -> None
+    }
+  }
+}
+
+pub fn map2(fuzz_a: Fuzzer<a>, fuzz_b: Fuzzer<b>, f: fn(a, b) -> c) -> Fuzzer<c> {
+  fn(s0) {
+    when fuzz_a(s0) is {
+      Some((s1, a)) ->
+        when fuzz_b(s1) is {
+          Some((s2, b)) -> Some((s2, f(a, b)))
+          None -> None
+        }
+      None -> None
+    }
+  }
+}
+
+fn bool() -> Fuzzer<Bool> {
+  int() |> map(fn(n) { n % 2 == 0 })
+}
+
+fn pair(fuzz_a: Fuzzer<a>, fuzz_b: Fuzzer<b>) -> Fuzzer<(a, b)> {
+  map2(fuzz_a, fuzz_b, fn(a, b) { (a, b) })
+}
+
+fn list_of(n: Int, f: Fuzzer<a>) -> Fuzzer<List<a>> {
+  if n <= 0 {
+    constant([])
+  } else {
+    map2(f, list_of(n - 1, f), fn(x, xs) { [x, ..xs] })
+  }
+}
+
+// data-dependent number of choices: the first choice says how many follow
+fn dep_list() -> Fuzzer<List<Int>> {
+  int() |> and_then(fn(n) { list_of(n % 6, int()) })
+}
+
+// "continue?" flag before every element
+fn flag_list() -> Fuzzer<List<Int>> {
+  int()
+    |> and_then(
+         fn(flag) {
+           if flag % 4 != 0 {
+             map2(int(), flag_list(), fn(x, xs) { [x, ..xs] })
+           } else {
+             constant([])
+           }
+         },
+       )
+}
+
+// retries until the choice is below 200 (in both modes): replay yields None only by exhaustion
+fn small() -> Fuzzer<Int> {
+  fn(prng: PRNG) -> Option<(PRNG, Int)> {
+    when int()(prng) is {
+      Some((next, n)) ->
+        if n < 200 {
+          Some((next, n))
+        } else {
+          small()(next)
+        }
+      None -> None
+    }
+  }
+}
+
+// looks at the replay cursor: None when choices are left over (NOT prefix-stable)
+fn exact(f: Fuzzer<a>) -> Fuzzer<a> {
+  fn(prng: PRNG) -> Option<(PRNG, a)> {
+    when f(prng) is {
+      Some((next, a)) ->
+        when next is {
+          Seeded { .. } -> Some((next, a))
+          Replayed { cursor, .. } ->
+            if cursor == 0 {
+              Some((next, a))
+            } else {
+              None
+            }
+        }
+      None -> None
+    }
+  }
+}
+
+fn label(str: String) -> Void {
+  str
+    |> builtin.append_string(@"\0", _)
+    |> builtin.debug(Void)
+}
+
+fn sum(xs: List<Int>) -> Int {
+  when xs is {
+    [] -> 0
+    [x, ..rest] -> x + sum(rest)
+  }
+}
+
+fn len(xs: List<Int>) -> Int {
+  when xs is {
+    [] -> 0
+    [_, ..rest] -> 1 + len(rest)
+  }
+}
+
+fn is_sorted(xs: List<Int>) -> Bool {
+  when xs is {
+    [] -> True
+    [_] -> True
+    [x, y, ..rest] -> x <= y && is_sorted([y, ..rest])
+  }
+}
+"#;
+
+/// (name, `via` expression with type, body); each is instantiated with the three expectations
+const E2E_CASES: &[(&str, &str, &str)] = &[
+    ("int_even", "n: Int via int()", "n % 2 == 0"),
+    ("int_small", "n: Int via int()", "n < 250"),
+    ("int_never", "n: Int via int()", "n >= 0"),
+    ("int_always", "n: Int via int()", "n < 0"),
+    ("bool_id", "b: Bool via bool()", "b"),
+    ("pair_sum", "t: (Int, Int) via pair(int(), int())", "t.1st + t.2nd <= 400"),
+    ("pair_order", "t: (Int, Int) via pair(int(), int())", "t.1st <= t.2nd || t.1st - t.2nd < 10"),
+    ("pair_mod", "t: (Int, Int) via pair(int(), int())", "( t.1st + t.2nd ) % 7 != 3"),
+    ("dep_sum", "xs: List<Int> via dep_list()", "sum(xs) < 300"),
+    ("dep_len", "xs: List<Int> via dep_list()", "len(xs) < 3"),
+    ("dep_sorted", "xs: List<Int> via dep_list()", "is_sorted(xs)"),
+    ("dep_crash", "xs: List<Int> via dep_list()", "{\n    expect [_, ..] = xs\n    True\n  }"),
+    ("flag_sum", "xs: List<Int> via flag_list()", "sum(xs) < 200"),
+    ("flag_sorted", "xs: List<Int> via flag_list()", "is_sorted(xs)"),
+    ("flag_len", "xs: List<Int> via flag_list()", "len(xs) != 2"),
+    ("small_big", "n: Int via small()", "n < 150"),
+    ("small_pair", "t: (Int, Int) via pair(small(), small())", "t.1st + t.2nd < 250"),
+    ("const_fail", "n: Int via constant(42)", "n != 42"),
+    ("const_pass", "n: Int via constant(42)", "n == 42"),
+    ("exact_pair", "t: (Int, Int) via exact(pair(int(), int()))", "t.1st + t.2nd <= 300"),
+    ("exact_dep", "xs: List<Int> via exact(dep_list())", "sum(xs) < 200"),
+    ("labels", "b: Bool via bool()", "{\n    if b { label(@\"head\") } else { label(@\"tail\") }\n    True\n  }"),
+    ("labels_fail", "n: Int via int()", "{\n    if n < 128 { label(@\"low\") } else { label(@\"high\") }\n    n < 240\n  }"),
+];
+
+fn otf_keyword(otf: &OnTestFailure) -> &'static str {
+    match otf {
+        OnTestFailure::FailImmediately => "",
+        OnTestFailure::SucceedEventually => "fail",
+        OnTestFailure::SucceedImmediately => "fail once",
+    }
+}
+
+/// the steps of the repo's `with_test_from_source` (that helper is `cfg(test)`), public API only
+fn compile_property(src: &str) -> Result<PropertyTest, String> {
+    let src = src.to_string();
+    report::guarded(std::panic::AssertUnwindSafe(move || {
+        let id_gen = IdGenerator::new();
+        let module_name = "";
+        let kind = ModuleKind::Lib;
+        let mut module_types = HashMap::new();
+        module_types.insert(builtins::PRELUDE.to_string(), builtins::prelude(&id_gen));
+        module_types.insert(builtins::BUILTIN.to_string(), builtins::plutus(&id_gen));
+        let mut warnings = vec![];
+        let (ast, _) = parser::module(&src, kind).expect("Failed to parse module");
+        let ast = ast
+            .infer(
+                &id_gen,
+                kind,
+                module_name,
+                &module_types,
+                Tracing::All(TraceLevel::Verbose),
+                &mut warnings,
+                None,
+            )
+            .expect("Failed to type-check module.");
+        module_types.insert(module_name.to_string(), ast.type_info.clone());
+        let test = ast
+            .definitions()
+            .filter_map(|def| match def {
+                Definition::Test(test) => Some(test.clone()),
+                _ => None,
+            })
+            .last()
+            .expect("No test found in declared src?");
+        let mut functions = builtins::prelude_functions(&id_gen, &module_types);
+        let mut data_types = builtins::prelude_data_types(&id_gen);
+        let mut constants = IndexMap::new();
+        ast.register_definitions(&mut functions, &mut constants, &mut data_types);
+        let mut module_sources = HashMap::new();
+        module_sources.insert(module_name.to_string(), (src.to_string(), LineNumbers::new(&src)));
+        let mut generator = CodeGenerator::new(
+            PlutusVersion::default(),
+            utils::indexmap::as_ref_values(&functions),
+            utils::indexmap::as_ref_values(&constants),
+            utils::indexmap::as_ref_values(&data_types),
+            utils::indexmap::as_str_ref_values(&module_types),
+            utils::indexmap::as_str_ref_values(&module_sources),
+            Tracing::All(TraceLevel::Verbose),
+        );
+        match Test::from_function_definition(
+            &mut generator,
+            test.to_owned(),
+            module_name.to_string(),
+            PathBuf::new(),
+            RunnableKind::Test,
+        ) {
+            Test::PropertyTest(t) => t,
+            _ => panic!("not a property test"),
+        }
+    }))
+}
+
+fn keep_of(otf: &OnTestFailure, is_failure: bool) -> bool {
+    match otf {
+        OnTestFailure::FailImmediately | OnTestFailure::SucceedImmediately => is_failure,
+        OnTestFailure::SucceedEventually => !is_failure,
+    }
+}
+
+/// documented meaning of the three expectations over the per-sample outcomes
+fn verdict_spec(otf: &OnTestFailure, fails: &[bool]) -> bool {
+    match otf {
+        OnTestFailure::FailImmediately => fails.iter().all(|f| !f),
+        OnTestFailure::SucceedEventually => fails.iter().all(|f| *f),
+        OnTestFailure::SucceedImmediately => fails.iter().any(|f| *f),
+    }
+}
+
+struct Reference {
+    fails: Vec<bool>,
+    /// 1-based iteration of the first kept sample, its choices and value
+    first: Option<(usize, Vec<u8>, PlutusData)>,
+    labels: BTreeMap<String, usize>,
+}
+
+/// independent walk over the same seeded samples with the public pieces
+/// (`Prng::from_seed`, `Prng::sample`, `PropertyTest::eval`); no shrinking
+fn reference(prop: &PropertyTest, seed: u32, n: usize, pv: &PlutusVersion) -> Reference {
+    let lang: pallas_primitives::conway::Language = pv.into();
+    let mut prng = Prng::from_seed(seed);
+    let mut out = Reference { fails: vec![], first: None, labels: BTreeMap::new() };
+    for it in 1..=n {
+        let (next, value) = prng
+            .sample(&prop.fuzzer.program)
+            .expect("fuzzer crashed")
+            .expect("seeded fuzzer returned None");
+        let result = prop.eval(&value, pv);
+        let is_failure = result.failed(true, &lang);
+        if out.first.is_none() {
+            for l in result.labels() {
+                *out.labels.entry(l).or_insert(0) += 1;
+            }
+        }
+        out.fails.push(is_failure);
+        if out.first.is_none() && keep_of(&prop.on_test_failure, is_failure) {
+            out.first = Some((it, next.choices(), value));
+        }
+        prng = next;
+    }
+    out
+}
+
+pub fn e2e(ctx: &Ctx) -> Report {
+    silence_stderr();
+    let seeds = arg_usize("--seeds", if ctx.thorough { 400 } else { 40 });
+    let n = arg_usize("--iterations", 60);
+    let mut rep = Report::new(
+        "c16-e2e",
+        "hand-written stdlib-free Aiken fuzzers/properties compiled by the real compiler, \
+         PropertyTest::run(seed, n) for many seeds x 3 expectations: run twice (identical report), \
+         verdict/iterations/labels vs an independent walk over the same samples, counterexample \
+         re-evaluated, regenerated from its choices, <= first failing case in shortlex. \
+         Non-trivial = distinct (case, expectation, seed) that reported a counterexample needing >= 1 choice",
+    );
+    let pv = PlutusVersion::default();
+    let lang: pallas_primitives::conway::Language = (&pv).into();
+    let mut r = Rng::new(ctx.seed);
+    let seed_list: Vec<u32> = (0..seeds)
+        .map(|i| match i {
+            0 => 0,
+            1 => 42,
+            2 => u32::MAX,
+            _ => r.next() as u32,
+        })
+        .collect();
+    for (name, via, body) in E2E_CASES {
+        for otf in [OnTestFailure::FailImmediately, OnTestFailure::SucceedEventually, OnTestFailure::SucceedImmediately] {
+            let src = format!("{PRELUDE}\ntest prop({via}) {} {{\n  {body}\n}}\n", otf_keyword(&otf));
+            let case = format!("{name}/{}", match otf { OnTestFailure::FailImmediately => "plain", OnTestFailure::SucceedEventually => "fail", OnTestFailure::SucceedImmediately => "fail-once" });
+            let prop = match compile_property(&src) {
+                Ok(p) => p,
+                Err(msg) => {
+                    rep.fail(&format!("e2e:{case}:compile"), "the harness's own Aiken source does not compile (harness problem or compiler crash)", json!({"source": src}), json!({"panic": msg}));
+                    continue;
+                }
+            };
+            if prop.on_test_failure != otf {
+                rep.fail(&format!("e2e:{case}:otf"), "expectation keyword parsed to a different OnTestFailure", json!({"case": case}), json!({"got": format!("{:?}", prop.on_test_failure)}));
+            }
+            rep.count(&format!("case:{name}"));
+            for &seed in &seed_list {
+                rep.evaluations += 1;
+                let key = format!("e2e:{case}:seed={seed}");
+                let outcome = report::guarded(std::panic::AssertUnwindSafe(|| {
+                    let mut problems: Vec<(String, serde_json::Value)> = vec![];
+                    let r1 = prop.clone().run(seed, n, &pv);
+                    let r2 = prop.clone().run(seed, n, &pv);
+                    let show = |r: &aiken_lang::test_framework::PropertyTestResult<PlutusData>| {
+                        format!(
+                            "ce={} it={} labels={:?} logs={:?}",
+                            match &r.counterexample { Ok(Some(v)) => wire::data(v), Ok(None) => "none".into(), Err(e) => format!("error {e:?}") },
+                            r.iterations, r.labels, r.logs
+                        )
+                    };
+                    let (s1, s2) = (show(&r1), show(&r2));
+                    if s1 != s2 {
+                        problems.push(("same seed, different report".into(), json!({"first": s1, "second": s2})));
+                    }
+                    let reference = reference(&prop, seed, n, &pv);
+                    // verdict
+                    let verdict = TestResult::PropertyTestResult::<(), _>(r1.clone()).is_success();
+                    let spec = verdict_spec(&otf, &reference.fails);
+                    if verdict != spec {
+                        problems.push(("is_success differs from the documented meaning of the expectation".into(), json!({"is_success": verdict, "spec": spec, "fails": format!("{:?}", reference.fails)})));
+                    }
+                    // iterations and labels
+                    let expected_iterations = reference.first.as_ref().map(|f| f.0).unwrap_or(n);
+                    if r1.iterations != expected_iterations {
+                        problems.push(("iterations".into(), json!({"reported": r1.iterations, "expected": expected_iterations})));
+                    }
+                    if r1.labels != reference.labels {
+                        problems.push(("labels".into(), json!({"reported": format!("{:?}", r1.labels), "expected": format!("{:?}", reference.labels)})));
+                    }
+                    let mut info = (false, 0usize, 0usize);
+                    match (&r1.counterexample, &reference.first) {
+                        (Ok(None), None) => {}
+                        (Ok(Some(value)), Some((_, first_choices, first_value))) => {
+                            // (a) re-applied, it is a kept case
+                            let again = prop.eval(value, &pv).failed(true, &lang);
+                            if !keep_of(&otf, again) {
+                                problems.push(("the reported counterexample does not falsify the property when re-applied".into(), json!({"value": wire::data(value), "failed": again})));
+                            }
+                            // (b) its choices (from run_n_times, same seed) regenerate it
+                            let mut remaining = n;
+                            let mut labels = BTreeMap::new();
+                            match prop.run_n_times(&mut remaining, Prng::from_seed(seed), &mut labels, &pv) {
+                                Ok(Some(ce)) => {
+                                    if ce.value != *value {
+                                        problems.push(("run and run_n_times report different counterexamples".into(), json!({"run": wire::data(value), "run_n_times": wire::data(&ce.value)})));
+                                    }
+                                    match Prng::from_choices(&ce.choices).sample(&prop.fuzzer.program) {
+                                        Ok(Some((_, v))) if v == ce.value => {}
+                                        other => problems.push(("replaying the recorded choices does not regenerate the counterexample".into(),
+                                            json!({"choices": wire::hex(&ce.choices), "value": wire::data(&ce.value),
+                                                   "replay": match other { Ok(Some((_, v))) => wire::data(&v), Ok(None) => "None".into(), Err(e) => format!("error {e:?}") }}))),
+                                    }
+                                    // (c) no larger than the first failing case
+                                    if !shortlex_le(&ce.choices, first_choices) {
+                                        problems.push(("final choices larger (shortlex) than the first failing case".into(), json!({"final": wire::hex(&ce.choices), "first": wire::hex(first_choices)})));
+                                    }
+                                    info = (true, first_choices.len(), ce.choices.len());
+                                    // premise of the theorems: the first failing case replays to itself
+                                    match Prng::from_choices(first_choices).sample(&prop.fuzzer.program) {
+                                        Ok(Some((_, v))) if v == *first_value => {}
+                                        _ => problems.push(("the first failing case is not regenerated by its own recorded choices".into(), json!({"first": wire::hex(first_choices)}))),
+                                    }
+                                }
+                                _ => problems.push(("run reports a counterexample, run_n_times does not".into(), json!({}))),
+                            }
+                        }
+                        (got, want) => problems.push(("counterexample presence differs from the independent walk".into(),
+                            json!({"reported": match got { Ok(Some(v)) => wire::data(v), Ok(None) => "none".into(), Err(e) => format!("error {e:?}") },
+                                   "walk_first_kept_iteration": want.as_ref().map(|f| f.0)}))),
+                    }
+                    (problems, info, verdict)
+                }));
+                match outcome {
+                    Err(msg) => {
+                        rep.count("panic");
+                        rep.fail(&format!("{key}:panic"), "PropertyTest::run (or the replay of its report) panicked", json!({"case": case, "seed": seed, "source": src}), json!({"panic": msg}));
+                    }
+                    Ok((problems, (has_ce, first_len, final_len), verdict)) => {
+                        rep.count(if has_ce { "counterexample" } else { "no-counterexample" });
+                        rep.count(if verdict { "verdict:success" } else { "verdict:failure" });
+                        if has_ce {
+                            rep.count(if final_len < first_len { "shrunk:shorter" } else { "shrunk:same-length" });
+                            if first_len >= 1 {
+                                rep.nontrivial.insert(key.clone());
+                            }
+                            if first_len >= 2 {
+                                rep.sample(json!({"case": case, "seed": seed, "first_len": first_len, "final_len": final_len}));
+                            }
+                        }
+                        for (what, detail) in problems {
+                            rep.fail(&format!("{key}:{}", what.split(' ').take(3).collect::<Vec<_>>().join("-")), &what, json!({"case": case, "seed": seed, "n": n, "source": format!("test prop({via}) {} {{ {body} }}", otf_keyword(&otf))}), detail);
+                        }
+                    }
+                }
+            }
+        }
+    }
+    rep
+}
